@@ -105,8 +105,10 @@ class CW:
                     if used != [0] or not nt.startswith(ATOMIC_PREFIX):
                         raise AnalysisError("%s: reference to RcInner.state passed to `%s`" % (name, nt))
                     op = nt[len(ATOMIC_PREFIX):]
-                    out.append({"fn": name, "bb": bi, "op": op, "loc": b.loc(bi), "exp": t["span"]["exp"],
-                                "file": t["span"]["file"]})
+                    # a helper introduced by refactoring is judged inlined in the function(s) that reach it
+                    for root in self.prog.roots_of(name):
+                        out.append({"fn": root, "bb": bi, "op": op, "loc": b.loc(bi), "exp": t["span"]["exp"],
+                                    "file": t["span"]["file"], "in": name})
         return out
 
     # ---------------------------------------------------------------- term helpers
